@@ -28,16 +28,16 @@ func init() {
 	setTier("C04", 20000, 400, 1200000, 1800)
 	levelOf["C04"] = "fault_enumeration"
 	addressSpaceLimit["C04"] = 8 << 30
-	ruleOf["C04"] = "one run = one valid encoding generated from the tape (a value of any of the 21 tags nested to depth 3, a registered pack, an unregistered SM pack, a step stream, a transaction record, an int-int map or a typed list; one run in 60 a bulk encoding of 230-1500 addresses/short blobs or socket/sql/secure steps with individual content) first decoded completely and encoded again (round trip: the object must hold the input's data and nothing else), then subjected to (a) truncation at every byte offset (for encodings above 1 KiB: every offset in the first 256 and last 64 bytes, strided in between), decoded both from a buffer and through a simulated connection that delivers seeded fragments and then EOF/reset, and (b) overwrite of every byte with {00,7f,80,fe,ff} plus 4-byte and 8-byte big-endian hostile length patterns at every offset (exhaustive up to 256 bytes, strided above); evaluations = runs; distinct_nontrivial = distinct cells (decoder kind, fault kind, offset class, outcome) reached, every one of which executed real decoder code on a faulty input"
+	ruleOf["C04"] = "one run = one valid encoding generated from the tape (a value of any of the 21 tags nested to depth 3, a registered pack, an unregistered SM pack, a step stream, a transaction record, an int-int map or a typed list; one run in 60 a bulk encoding of 230-1500 addresses/short blobs or socket/sql/secure steps with individual content) first decoded completely and encoded again (round trip: the object must hold the input's data and nothing else), then subjected to (a) truncation at every byte offset (for encodings above 1 KiB: every offset in the first 256 and last 64 bytes, strided in between), decoded both from a buffer and through a simulated connection that delivers seeded fragments and then EOF/reset, and (b) overwrite of every byte with {00,7f,80,fe,ff} plus 4-byte and 8-byte big-endian hostile length patterns at every offset (exhaustive up to 256 bytes, strided above); every fifth run is scenario prim instead: 16 seeded sequences of primitive DataInputX reads over seeded, mostly hostile byte strings, on one reader, from a buffer and through a simulated connection, compared read by read with a reference reader written from the format; evaluations = runs; distinct_nontrivial = distinct cells (decoder kind, fault kind, offset class, outcome) reached, every one of which executed real decoder code on a faulty input"
 	assumptionsOf["C04"] = []string{
 		"a decoder that returns normally on a strict prefix is legitimate only if it did not read past the end of the prefix (Available() >= 0) and the connection mode, which can only hand out bytes it has, also returns normally; this decides the 'complete older version' exception behaviourally",
 		"memory bound per decode: bytes allocated (runtime/metrics /gc/heap/allocs:bytes delta) <= 4 MiB + 64 x len(input) (the constant absorbs 16-bit count fields and the per-P lag of the allocation counter; a measurement above the bound is confirmed by decoding the same input again); hostile length patterns are capped at 2^27 so that a violating allocation stays survivable inside the worker process",
 		"plain ReadBytes(n) on a connection must allocate before reading by design and is not charged in connection mode; the bound is applied to buffer-mode decodes",
 		"inner payloads of container packs are generated small; gzip bombs are out of scope (compression ratio, not length fields)",
 	}
-	realComponents["C04"] = []string{"io.DataInputX (buffer mode and NewDataInputNet mode)", "value.ReadValue (21 tags)", "pack.ReadPack (all registered packs)", "SM pack Read methods", "step.ReadStep", "service.TxRecord.ToObject", "hmap.IntIntMap.ToObject", "list.IntList/StringList/LongList Read"}
+	realComponents["C04"] = []string{"io.DataInputX (buffer mode and NewDataInputNet mode; all primitive reads in scenario prim)", "value.ReadValue (21 tags)", "pack.ReadPack (all registered packs)", "SM pack Read methods", "step.ReadStep", "service.TxRecord.ToObject", "hmap.IntIntMap.ToObject", "list.IntList/StringList/LongList Read"}
 	stubComponents["C04"] = []string{"net.Conn byte source (simnet pipe: seeded fragmentation, EOF or reset at the truncation offset)"}
-	probesFor["C04"] = []string{"roundtrip_equal", "roundtrip_equal_fragmented", "history_independent", "read_fragmented", "unknown_tag_hit", "trunc_panicked", "overwrite_panicked", "overwrite_decoded"}
+	probesFor["C04"] = []string{"roundtrip_equal", "roundtrip_equal_fragmented", "history_independent", "read_fragmented", "unknown_tag_hit", "trunc_panicked", "overwrite_panicked", "overwrite_decoded", "prim_read_equal", "prim_read_failed_as_it_must", "prim_refused_although_present"}
 	register(&Scenario{Prop: "C04", Name: "decode", MaxSteps: 50000000, Body: c04Body, After: c04After, StepcapIsViolation: true})
 }
 
